@@ -9,7 +9,7 @@ PID = "C06"
 LEVEL = "proof"
 MODULE = "Sigc.Props.C06"
 EXTRA_MODULES = ("Sigc.Props.Refine", "Sigc.Props.Fuel", "Sigc.Props.SpecK", "Sigc.Props.SlotG",)   # refinement P ⊑ S', S' ≡ S on runs clear of the known findings
-REQUIRED = ["Sigc.SlotG.wf_reachable", "Sigc.SlotG.no_dangling", "Sigc.SlotG.no_fuel_error", "Sigc.SlotG.rep_held_unique", "Sigc.SlotG.live_count_spec", "Sigc.C06.ownedG_named", "Sigc.Fuel.terminates", "Sigc.Fuel.runProgram_fuel_independent", "Sigc.Refine.refines", "Sigc.Refine.runProgram_refines", "Sigc.SpecK.model_refines_pure_spec"]
+REQUIRED = ["Sigc.SlotG.assign_owned_connection_safe", "Sigc.SlotG.wf_reachable", "Sigc.SlotG.no_dangling", "Sigc.SlotG.no_fuel_error", "Sigc.SlotG.rep_held_unique", "Sigc.SlotG.live_count_spec", "Sigc.C06.ownedG_named", "Sigc.Fuel.terminates", "Sigc.Fuel.runProgram_fuel_independent", "Sigc.Refine.refines", "Sigc.Refine.runProgram_refines", "Sigc.SpecK.model_refines_pure_spec"]
 TRUSTED = rt.TRUSTED_RT
 ASSUMPTIONS = rt.ASSUMPTIONS_RT + []
 PARTIAL = []
